@@ -309,7 +309,19 @@ func c15WireOn(w *W, trans []string) {
 				}
 				m.Header = append(m.Header, lastRawHdr...)
 				wantHdr = lastRawHdr[4:]
-			case "xreq", "xsurveyor", "xpair1", "xstar":
+			case "xreq", "xsurveyor":
+				// a raw requester / surveyor inside a device chain sends the
+				// routing words that came with the message in front of the id:
+				// protocol headers of 4 to 68 bytes, written out unchanged
+				for k := []int{0, 0, 1, 7, 8, 9, 16}[w.Choose(simrt.SProg, 7)]; k > 0; k-- {
+					m.Header = append(m.Header, u32(uint32(w.Choose(simrt.SProg, 1<<30))&0x7fffffff)...)
+				}
+				m.Header = append(m.Header, rawHeader(kind, 0, uint32(i+7))...)
+				wantHdr = append([]byte(nil), m.Header...)
+				if len(wantHdr) > 32 {
+					w.Probe("protocol-header-longer-than-32-bytes")
+				}
+			case "xpair1", "xstar":
 				m.Header = append(m.Header, rawHeader(kind, 0, uint32(i+7))...)
 				wantHdr = rawHeader(kind, 0, uint32(i+7))
 			case "req", "surveyor":
